@@ -252,7 +252,7 @@ func (a *RtmpClient) Observe() {
 		if u.DeliveredStep < 0 && u.EndOff <= in {
 			u.DeliveredStep = step
 		}
-		if u.DeliveredStep >= 0 && u.ProcessedStep < 0 && idle {
+		if u.DeliveredStep >= 0 && u.ProcessedStep < 0 && idle && u.EndOff <= a.Conn.TotalConsumed {
 			u.ProcessedStep = step
 		}
 	}
